@@ -64,6 +64,7 @@ type VC struct {
 	stack    []*ssa.Function
 	topFrame *Frame
 	grefs    map[string]int
+	footprints map[string]*footprint
 	plan     *replayPlan
 	firstIter []string // replay hints: loop-head state equals the state on loop entry
 	outer    map[ssa.Value]Val // iteration mode: values defined outside the loop
@@ -104,6 +105,7 @@ type Frame struct {
 	entryMeasure []string
 	done    map[string][]*ssa.BasicBlock
 	iter    *iterMode
+	loopDefers []*ssa.Defer
 }
 
 func (vc *VC) note(format string, a ...any) {
@@ -950,6 +952,7 @@ func (f *Frame) instr(instr ssa.Instruction) bool {
 		m := f.val(x.Map)
 		k := f.materialize(f.val(x.Key))
 		v := f.materialize(f.val(x.Value))
+		f.siteMapWrite(x)
 		f.safe("mapnil", app("not", eq(m.t, "0")), "assignment to entry in possibly nil map "+x.Map.Name(), x.Pos())
 		l, li := locMapDom(x.Map.Type())
 		srt := li.sort(te)
@@ -969,7 +972,12 @@ func (f *Frame) instr(instr ssa.Instruction) bool {
 		if f.loops != nil {
 			for _, li := range f.loops {
 				if li.body[x.Block()] {
-					unsupported("defer inside loop in %s", f.fn)
+					// registered an unknown number of times: its effects are havocked at RunDefers
+					f.loopDefers = append(f.loopDefers, x)
+					for _, a := range x.Call.Args {
+						_ = f.val(a)
+					}
+					return false
 				}
 			}
 		}
@@ -980,6 +988,9 @@ func (f *Frame) instr(instr ssa.Instruction) bool {
 			_ = f.val(a)
 		}
 	case *ssa.RunDefers:
+		for _, d := range f.loopDefers {
+			vc.he.havoc(f.cur, vc.callMod(&d.Call))
+		}
 		for i := len(f.defers) - 1; i >= 0; i-- {
 			d := f.defers[i]
 			// executed only if the defer statement was reached: approximate by executing the call under
